@@ -35,37 +35,54 @@ struct Case {
     fork: Chain,
     regs: Vec<Reg>,
     batch: u64,
+    hashes_batch: u64,
+    max_outbound: u32,
+    n_peers: usize,
+    /// peer `n_peers` lies consistently about the filters of the blocks `from..` (hashes and
+    /// filters from a doctored chain, honest check points)
+    liar_from: Option<u64>,
+    rng_seed: u64,
 }
 
 fn new_sim(env: &Env, case: &Case, old: Option<Sim>) -> Sim {
-    let cfg = ClientCfg { last_n: 3, max_outbound: 2, cp_interval: 4, ..Default::default() };
-    let mut world = World::new(vec![case.chain.clone()], cfg.cp_interval);
-    world.add_peer(1, 0, case.chain.tip_number());
-    world.add_peer(2, 0, case.chain.tip_number());
+    let cfg = ClientCfg { last_n: 3, max_outbound: case.max_outbound, cp_interval: 4, ..Default::default() };
+    let mut chains = vec![case.chain.clone()];
+    if let Some(from) = case.liar_from {
+        chains.push(case.chain.with_fake_filters(from));
+    }
+    let mut world = World::new(chains, cfg.cp_interval);
+    for p in 1..=case.n_peers {
+        world.add_peer(p, 0, case.chain.tip_number());
+    }
+    if case.liar_from.is_some() {
+        world.peer_mut(case.n_peers).filter_chain = Some(1);
+    }
     world.filter_batch = case.batch;
+    world.hashes_batch = case.hashes_batch;
     crate::verif::client::set_now(crate::verif::world::BASE_TS + 1_000_000);
     let mut sim = match old {
         Some(old) => Sim::recycle(old, cfg, world),
         None => scen::new_sim(env, cfg, world),
     };
-    crate::verif_hooks::rng_reset(6);
+    crate::verif_hooks::rng_reset(6 + case.rng_seed);
     let list: Vec<_> = case
         .regs
         .iter()
         .map(|r| (r.script.clone(), if r.is_lock { crate::storage::ScriptType::Lock } else { crate::storage::ScriptType::Type }, r.start))
         .collect();
     scen::register(&sim, &list);
-    sim.connect(1);
-    sim.connect(2);
+    for p in 1..=case.n_peers {
+        sim.connect(p);
+    }
     sim
 }
 
-fn is_filters(m: &InFlight) -> bool {
-    m.proto == Proto::Filter && scen::filter_kind(&m.data).as_deref() == Some("BlockFilters")
+fn is_kind(m: &InFlight, kind: &str) -> bool {
+    m.proto == Proto::Filter && scen::filter_kind(&m.data).as_deref() == Some(kind)
 }
 
 /// Runs the honest history until the k-th BlockFilters message is at the front of the queue.
-fn run_until(sim: &mut Sim, k: usize) -> bool {
+fn run_until(sim: &mut Sim, kind: &str, k: usize) -> bool {
     let mut seen = 0usize;
     let mut idle = 0;
     for _ in 0..2000 {
@@ -79,7 +96,7 @@ fn run_until(sim: &mut Sim, k: usize) -> bool {
             continue;
         }
         idle = 0;
-        if is_filters(&sim.queue[0]) {
+        if is_kind(&sim.queue[0], kind) {
             if seen == k {
                 return true;
             }
@@ -211,6 +228,52 @@ fn mutants(case: &Case, honest: &packed::BlockFilters, thorough: bool) -> Vec<(S
     out
 }
 
+/// Mutants of a BlockFilterHashes message: (class, label, bytes)
+fn hashes_mutants(honest_data: &[u8]) -> Vec<(String, String, ckb_network::bytes::Bytes)> {
+    let mut out = vec![];
+    let m = match packed::BlockFilterMessage::from_slice(honest_data).ok().map(|m| m.to_enum()) {
+        Some(packed::BlockFilterMessageUnion::BlockFilterHashes(m)) => m,
+        _ => return out,
+    };
+    let start: u64 = m.start_number().unpack();
+    let hs: Vec<packed::Byte32> = m.block_filter_hashes().into_iter().collect();
+    let wrap = |x: packed::BlockFilterHashes| packed::BlockFilterMessage::new_builder().set(x).build().as_bytes();
+    let fake = |salt: u8| packed::Byte32::new_unchecked(vec![salt; 32].into());
+    for i in 0..hs.len() {
+        let mut v = hs.clone();
+        v[i] = fake(0xc0 + (i as u8 & 0xf));
+        let class = if i + 1 == hs.len() { "hashes:last-hash:=fake" } else if i == 0 { "hashes:first-hash:=fake" } else { "hashes:inner-hash:=fake" };
+        out.push((class.to_owned(), format!("hash of #{}", start + i as u64), wrap(m.clone().as_builder().block_filter_hashes(v.pack()).build())));
+        if i + 1 < hs.len() {
+            let mut v = hs.clone();
+            v.swap(i, i + 1);
+            out.push(("hashes:swap-neighbours".to_owned(), format!("#{} <-> #{}", start + i as u64, start + i as u64 + 1), wrap(m.clone().as_builder().block_filter_hashes(v.pack()).build())));
+        }
+    }
+    if !hs.is_empty() {
+        // everything from some point on replaced (a consistent lie about a whole tail)
+        for from in [0usize, hs.len() / 2] {
+            let mut v = hs.clone();
+            for (j, x) in v.iter_mut().enumerate().skip(from) {
+                *x = fake(0x30 + (j as u8 & 0xf));
+            }
+            out.push(("hashes:tail:=fake".to_owned(), format!("from #{}", start + from as u64), wrap(m.clone().as_builder().block_filter_hashes(v.pack()).build())));
+        }
+        out.push(("hashes:drop-last".to_owned(), String::new(), wrap(m.clone().as_builder().block_filter_hashes(hs[..hs.len() - 1].to_vec().pack()).build())));
+        let mut v = hs.clone();
+        v.push(fake(0x77));
+        out.push(("hashes:extra-fake".to_owned(), String::new(), wrap(m.clone().as_builder().block_filter_hashes(v.pack()).build())));
+    }
+    out.push(("hashes:parent:=fake".to_owned(), String::new(), wrap(m.clone().as_builder().parent_block_filter_hash(fake(0x55)).build())));
+    for d in [-1i64, 1] {
+        let s2 = start as i64 + d;
+        if s2 >= 0 {
+            out.push(("hashes:start-number-shifted".to_owned(), format!("{:+}", d), wrap(m.clone().as_builder().start_number((s2 as u64).pack()).build())));
+        }
+    }
+    out
+}
+
 fn authentic_prefix(case: &Case, min_filtered: u64, data: &[u8]) -> u64 {
     let m = match parse(data) {
         Some(m) => m,
@@ -252,12 +315,21 @@ fn misattribution(case: &Case, min_filtered: u64, data: &[u8]) -> Option<&'stati
 
 pub(crate) fn run(opts: &Opts, report: &mut Report) {
     let thorough = opts.thorough();
-    // (world, script set, server batch)
-    let mut items: Vec<(usize, usize, u64)> = vec![];
+    // (world, script set, server filter batch, server hashes batch, max_outbound, target message kind)
+    let mut items: Vec<(usize, usize, u64, u64, u32, &'static str)> = vec![];
     for wi in if thorough { vec![0usize, 1, 2, 3] } else { vec![0usize, 1] } {
         for si in if thorough { vec![0usize, 1, 4, 5] } else { vec![1usize, 4] } {
             for batch in if thorough { vec![2u64, 5, 1000] } else { vec![3u64] } {
-                items.push((wi, si, batch));
+                items.push((wi, si, batch, 2000, 2, "BlockFilters"));
+            }
+        }
+    }
+    // filter hashes: answers that end before / exactly at / beyond the next check point (interval
+    // 4), with quorum 1 (max_outbound 2) and quorum 2 (max_outbound 3)
+    for wi in if thorough { vec![0usize, 1, 2] } else { vec![0usize] } {
+        for hashes_batch in if thorough { vec![3u64, 4, 6, 2000] } else { vec![4u64, 2000] } {
+            for max_outbound in if thorough { vec![2u32, 3] } else { vec![3u32] } {
+                items.push((wi, 1, 5, hashes_batch, max_outbound, "BlockFilterHashes"));
             }
         }
     }
@@ -265,7 +337,7 @@ pub(crate) fn run(opts: &Opts, report: &mut Report) {
     let n_items = items.len() * SLICES;
     let worker = crate::verif::props::shard::run("C06", opts, report, n_items, 16, |item, report| {
         let env = Env::dummy();
-        let (wi, si, batch) = items[item / SLICES];
+        let (wi, si, batch, hashes_batch, max_outbound, target) = items[item / SLICES];
         let slice = item % SLICES;
         let ws = c03::worlds(&env);
         let (wname, chain) = &ws[wi];
@@ -274,11 +346,22 @@ pub(crate) fn run(opts: &Opts, report: &mut Report) {
         let fork_at = chain.tip_number().saturating_sub(5).max(1);
         let mut fork = chain.fork(fork_at, 99);
         scen::extend_chain(&mut fork, &env.scripts, chain.tip_number(), &[]);
-        let case = Case { name: format!("{}/{}/batch{}", wname, sname, batch), chain: chain.clone(), fork, regs: regs.clone(), batch };
+        let case = Case {
+            name: format!("{}/{}/batch{}/hashes{}/outbound{}", wname, sname, batch, hashes_batch, max_outbound),
+            chain: chain.clone(),
+            fork,
+            regs: regs.clone(),
+            batch,
+            hashes_batch,
+            max_outbound,
+            n_peers: if max_outbound >= 3 { 3 } else { 2 },
+            liar_from: None,
+            rng_seed: 0,
+        };
         // honest reference run: how many BlockFilters messages, and it must be clean
         let mut sim = new_sim(&env, &case, None);
         let mut n_msgs = 0usize;
-        while run_until(&mut sim, 0) {
+        while run_until(&mut sim, target, 0) {
             n_msgs += 1;
             sim.deliver(0);
             if n_msgs > 200 {
@@ -296,6 +379,7 @@ pub(crate) fn run(opts: &Opts, report: &mut Report) {
                 // the honest history itself is C03's subject; here it only has to be sane
                 report.violation(format!("honest-run/{}", class), format!("[{}] {}", case.name, v[0]), json!({"case": case.name}));
             }
+            report.count(&format!("messages/{}", target), n_msgs as u64);
             report.count("block_filters_messages", n_msgs as u64);
             report.count("cases", 1);
         }
@@ -307,20 +391,25 @@ pub(crate) fn run(opts: &Opts, report: &mut Report) {
         for k in 0..n_msgs {
             // the honest k-th message
             let mut sim0 = new_sim(&env, &case, old.take());
-            if !run_until(&mut sim0, k) {
+            if !run_until(&mut sim0, target, k) {
                 old = Some(sim0);
                 continue;
             }
             let honest_msg = sim0.queue[0].clone();
-            let honest = match parse(&honest_msg.data) {
-                Some(h) => h,
-                None => {
-                    old = Some(sim0);
-                    continue;
-                }
-            };
             old = Some(sim0);
-            let mut muts = mutants(&case, &honest, thorough);
+            let mut muts = if target == "BlockFilters" {
+                match parse(&honest_msg.data) {
+                    Some(h) => mutants(&case, &h, thorough),
+                    None => continue,
+                }
+            } else {
+                hashes_mutants(&honest_msg.data)
+            };
+            let honest_start: u64 = match packed::BlockFilterMessage::from_slice(&honest_msg.data).ok().map(|m| m.to_enum()) {
+                Some(packed::BlockFilterMessageUnion::BlockFilters(m)) => m.start_number().unpack(),
+                Some(packed::BlockFilterMessageUnion::BlockFilterHashes(m)) => m.start_number().unpack(),
+                _ => 0,
+            };
             for m in crate::verif::mutate::structural(&Proto::Filter, &honest_msg.data) {
                 muts.push((format!("structural:{}", m.label.split('[').next().unwrap_or("")), m.label.clone(), m.data));
             }
@@ -336,13 +425,24 @@ pub(crate) fn run(opts: &Opts, report: &mut Report) {
                     let mut bad: Vec<(String, String)> = vec![];
                     let mut root_of_run: Option<&'static str> = None;
                     let r = panics::catch(|| {
-                        if !run_until(&mut sim, k) {
+                        if !run_until(&mut sim, target, k) {
                             return None;
                         }
                         let hm = sim.queue.pop_front().unwrap();
                         let m0 = sim.c().storage.get_min_filtered_block_number();
                         let allowed = authentic_prefix(&case, m0, data);
-                        let root = misattribution(&case, m0, data);
+                        let root = if target == "BlockFilters" {
+                            misattribution(&case, m0, data)
+                        } else {
+                            // filter hashes between two finalized check points are cached from a
+                            // single peer; beyond the last finalized one they need the quorum
+                            let (fi, _) = sim.c().storage.get_last_check_point();
+                            if honest_start <= fi as u64 * 4 {
+                                Some("tampered-cached-filter-hashes")
+                            } else {
+                                Some("tampered-latest-filter-hashes")
+                            }
+                        };
                         sim.deliver_msg(InFlight { proto: Proto::Filter, peer: hm.peer, data: data.clone(), note: format!("BlockFilters[{}]", class) });
                         let m1 = sim.c().storage.get_min_filtered_block_number();
                         let mut imm = vec![];
@@ -361,10 +461,33 @@ pub(crate) fn run(opts: &Opts, report: &mut Report) {
                                 sim.disconnect(p);
                             }
                         }
+                        let sender = hm.peer;
                         if then_honest && sim.world.peer(hm.peer).connected {
                             sim.deliver_msg(hm);
                         }
-                        let (_, _, converged) = sim.converge(80);
+                        // honest continuation; a peer the client bans is disconnected
+                        let mut converged = false;
+                        for _ in 0..6 {
+                            let (_, _, c) = sim.converge(80);
+                            converged = c;
+                            let banned: Vec<(usize, String)> = sim.bans().iter().map(|(p, r)| (p.value(), r.clone())).collect();
+                            let mut any = false;
+                            for (p, reason) in banned {
+                                if sim.world.peer(p).connected {
+                                    sim.disconnect(p);
+                                    any = true;
+                                    if p != sender {
+                                        imm.push((
+                                            "honest-peer-banned-after-foreign-mutant".to_owned(),
+                                            format!("peer {} (never sent anything but honest answers) was banned after the mutant of peer {}: {}", p, sender, reason),
+                                        ));
+                                    }
+                                }
+                            }
+                            if !any {
+                                break;
+                            }
+                        }
                         Some((imm, converged, m1 != m0, root))
                     });
                     match r {
@@ -394,8 +517,87 @@ pub(crate) fn run(opts: &Opts, report: &mut Report) {
                     for (oc, v) in oracle::group(bad) {
                         report.violation(
                             format!("{}/{}", oc, root_of_run.unwrap_or(class.as_str())),
-                            format!("[{}] BlockFilters message #{} (start {}), mutant {} ({}), then honest twin: {}: {}", case.name, k, Unpack::<u64>::unpack(&honest.start_number()), class, label, then_honest, v[0]),
+                            format!("[{}] {} message #{} (start {}), mutant {} ({}), then honest twin: {}: {}", case.name, target, k, honest_start, class, label, then_honest, v[0]),
                             json!({"case": case.name, "message_index": k, "mutant_class": class, "mutant": label, "then_honest": then_honest, "all": v.iter().take(6).collect::<Vec<_>>(), "mutant_hex": crate::verif::report::hex(&data[..data.len().min(2048)])}),
+                        );
+                    }
+                    old = Some(sim);
+                }
+            }
+        }
+        // ---- a consistently lying filter server among enough honest ones (quorum 2 of 3 peers):
+        // fake filters (empty from block `from` on) and a hash chain over them, honest check points
+        if target == "BlockFilterHashes" && slice == 0 {
+            let tip = case.chain.tip_number();
+            for from in (1..=tip).filter(|n| thorough || [1u64, 2, 4, 5, 7, 9].contains(n)) {
+                for seed in 0..(if thorough { 6u64 } else { 3 }) {
+                    let liar_case = Case {
+                        name: format!("{}/liar-from-{}/seed{}", case.name, from, seed),
+                        chain: case.chain.clone(),
+                        fork: case.fork.clone(),
+                        regs: case.regs.clone(),
+                        batch: case.batch,
+                        hashes_batch: case.hashes_batch,
+                        max_outbound: 3,
+                        n_peers: 3,
+                        liar_from: Some(from),
+                        rng_seed: seed,
+                    };
+                    runs += 1;
+                    *by_class.entry("consistent-liar".to_owned()).or_insert(0) += 1;
+                    crate::verif::props::shard::journal(&liar_case.name);
+                    let mut sim = new_sim(&env, &liar_case, old.take());
+                    let mut bad: Vec<(String, String)> = vec![];
+                    let r = panics::catch(|| {
+                        let mut converged = false;
+                        let mut imm = vec![];
+                        for _ in 0..6 {
+                            let (_, _, c) = sim.converge(80);
+                            converged = c;
+                            let banned: Vec<(usize, String)> = sim.bans().iter().map(|(p, r)| (p.value(), r.clone())).collect();
+                            let mut any = false;
+                            for (p, reason) in banned {
+                                if sim.world.peer(p).connected {
+                                    sim.disconnect(p);
+                                    any = true;
+                                    if p != 3 {
+                                        imm.push(("honest-peer-banned-by-consistent-liar".to_owned(), format!("honest peer {} banned: {}", p, reason)));
+                                    }
+                                }
+                            }
+                            if !any {
+                                break;
+                            }
+                        }
+                        (imm, converged)
+                    });
+                    match r {
+                        Err(p) => bad.push((format!("abort/{}", p.site()), p.describe())),
+                        Ok((imm, converged)) => {
+                            // both honest peers have to be proven for the quorum of 2 (an honest
+                            // peer stuck in its first proof round is C05's subject)
+                            let proven_honest = (1..=2usize)
+                                .filter(|p| sim.c().peers.get_state(&ckb_network::PeerIndex::new(*p)).and_then(|s| s.get_prove_state().cloned()).is_some())
+                                .count();
+                            if proven_honest < 2 {
+                                not_judged += 1;
+                                old = Some(sim);
+                                continue;
+                            }
+                            bad.extend(imm);
+                            if !converged {
+                                bad.push(("stall".into(), "no quiescence with two honest peers and one lying filter server".into()));
+                            }
+                            let tip_ok = sim.c().tip_number() == case.chain.tip_number();
+                            bad.extend(oracle::judge_index(sim.c(), &case.chain, &case.regs, converged && tip_ok));
+                            bad.extend(oracle::judge_store(&sim, &case.chain));
+                        }
+                    }
+                    for (oc, v) in oracle::group(bad) {
+                        report.violation(
+                            format!("{}/consistent-liar", oc),
+                            format!("[{}] peer 3 serves empty filters and a matching hash chain from block {} on (honest check points), peers 1 and 2 are honest, quorum 2: {}", liar_case.name, from, v[0]),
+                            json!({"case": liar_case.name, "liar_from": from, "rng_seed": seed, "all": v.iter().take(6).collect::<Vec<_>>()}),
                         );
                     }
                     old = Some(sim);
@@ -435,31 +637,59 @@ pub(crate) fn debug_case() {
     let fork_at = chain.tip_number().saturating_sub(5).max(1);
     let mut fork = chain.fork(fork_at, 99);
     scen::extend_chain(&mut fork, &env.scripts, chain.tip_number(), &[]);
-    let case = Case { name: format!("{}/{}/batch{}", wname, sname, 3), chain: chain.clone(), fork, regs: regs.clone(), batch: 3 };
+    let getn = |k: &str, d: u64| -> u64 { std::env::var(k).ok().and_then(|x| x.parse().ok()).unwrap_or(d) };
+    let target = std::env::var("C06_TARGET").unwrap_or("BlockFilters".into());
+    let liar = std::env::var("C06_LIAR").ok().and_then(|x| x.parse().ok());
+    let out = getn("C06_OUT", 2) as u32;
+    let case = Case {
+        name: format!("{}/{}", wname, sname),
+        chain: chain.clone(),
+        fork,
+        regs: regs.clone(),
+        batch: getn("C06_BATCH", 3),
+        hashes_batch: getn("C06_HB", 2000),
+        max_outbound: out,
+        n_peers: if out >= 3 { 3 } else { 2 },
+        liar_from: liar,
+        rng_seed: getn("C06_SEED", 0),
+    };
     let want_class = std::env::var("C06_CLASS").unwrap_or("drop-one-filter-and-hash".into());
     let want_label = std::env::var("C06_LABEL").unwrap_or("#2".into());
-    let k: usize = std::env::var("C06_K").ok().and_then(|x| x.parse().ok()).unwrap_or(0);
+    let k = getn("C06_K", 0) as usize;
     let mut sim = new_sim(&env, &case, None);
     sim.record_trace = true;
-    assert!(run_until(&mut sim, k));
-    let hm = sim.queue.pop_front().unwrap();
-    let honest = parse(&hm.data).unwrap();
-    let muts = mutants(&case, &honest, false);
-    let (class, label, data) = muts.iter().find(|(c, l, _)| c == &want_class && l == &want_label).expect("mutant");
-    println!("--- mutant {} {}", class, label);
-    sim.deliver_msg(InFlight { proto: Proto::Filter, peer: hm.peer, data: data.clone(), note: format!("BlockFilters[{}]", class) });
-    println!("bans {:?}", sim.bans());
-    let banned: Vec<usize> = sim.bans().iter().map(|(p, _)| p.value()).collect();
-    for p in banned {
-        if sim.world.peer(p).connected {
-            sim.disconnect(p);
+    if liar.is_none() {
+        assert!(run_until(&mut sim, &target, k));
+        let hm = sim.queue.pop_front().unwrap();
+        let mut muts = if target == "BlockFilters" { mutants(&case, &parse(&hm.data).unwrap(), false) } else { hashes_mutants(&hm.data) };
+        for m in crate::verif::mutate::structural(&Proto::Filter, &hm.data) {
+            muts.push((format!("structural:{}", m.label.split('[').next().unwrap_or("")), m.label.clone(), m.data));
+        }
+        let (class, label, data) = muts.iter().find(|(c, l, _)| c == &want_class && (want_label.is_empty() || l == &want_label)).expect("mutant");
+        println!("--- mutant {} {} from peer {}", class, label, hm.peer);
+        sim.deliver_msg(InFlight { proto: Proto::Filter, peer: hm.peer, data: data.clone(), note: format!("{}[{}]", target, class) });
+    }
+    let mut r = (0, 0, false);
+    for _ in 0..6 {
+        r = sim.converge(80);
+        let banned: Vec<usize> = sim.bans().iter().map(|(p, _)| p.value()).collect();
+        let mut any = false;
+        for p in banned {
+            if sim.world.peer(p).connected {
+                sim.disconnect(p);
+                any = true;
+            }
+        }
+        if !any {
+            break;
         }
     }
-    let r = sim.converge(80);
     for l in &sim.trace {
         println!("{}", l);
     }
+    println!("bans {:?}", sim.bans());
     println!("converged {:?} min_filtered {}", r, sim.c().storage.get_min_filtered_block_number());
+    println!("{}", sim.c().peers.verif_dump(crate::verif::client::now()));
     for b in oracle::judge_index(sim.c(), &case.chain, &case.regs, true) {
         println!("{:?}", b);
     }
